@@ -1,4 +1,5 @@
 import ImathVerif.Spec.MatSpec
+import ImathVerif.Lemmas.C05
 import ImathVerif.Gen.C05
 import Mathlib.Tactic.Ring
 import Mathlib.Tactic.FinCases
@@ -10,8 +11,8 @@ import Mathlib.LinearAlgebra.Matrix.Trace
 
 `Gen.*` is regenerated from the current headers on every run (T = Sym path
 extraction).  Specifications are Mathlib's `Matrix.mul`, `Matrix.det`,
-`Matrix.transpose`, `Matrix.trace`, `vecMul`, `dotProduct` and the Hamilton
-product.  All statements are over an arbitrary commutative ring (field where
+`Matrix.transpose`, `Matrix.trace`, `vecMul`, `dotProduct`, `crossProduct` and the
+multiplication of Mathlib's `Quaternion`.  All statements are over an arbitrary commutative ring (field where
 the code divides), for all operand values.  Rounding is not covered by these
 theorems (DESIGN.md §3): it is measured by the check against exact evaluation.
 -/
@@ -46,11 +47,55 @@ theorem V3_cross {α : Type} [CommRing α] (a b : V3 α) :
     Gen.V3.cross a b = ⟨a.y * b.z - a.z * b.y, a.z * b.x - a.x * b.z, a.x * b.y - a.y * b.x⟩ := rfl
 theorem V3_crossOp {α : Type} [CommRing α] (a b : V3 α) : Gen.V3.crossOp a b = Gen.V3.cross a b := rfl
 theorem V3_crossAssign {α : Type} [CommRing α] (a b : V3 α) : Gen.V3.crossAssign a b = Gen.V3.cross a b := rfl
-/-- Mathlib's `crossProduct` agrees -/
+/-- the components of `cross` as a Mathlib vector literal (same literal as `V3_cross`; the tie to Mathlib's
+`crossProduct` is `V3_cross_crossProduct` below) -/
 theorem V3_cross_mathlib {α : Type} [CommRing α] (a b : V3 α) :
     (Gen.V3.cross a b).toVec = ![a.y * b.z - a.z * b.y, a.z * b.x - a.x * b.z, a.x * b.y - a.y * b.x] := rfl
+/-- `cross` is Mathlib's `crossProduct` (`Mathlib.LinearAlgebra.CrossProduct`), for all operands -/
+theorem V3_cross_crossProduct {α : Type} [CommRing α] (a b : V3 α) :
+    (Gen.V3.cross a b).toVec = crossProduct a.toVec b.toVec := by
+  simp [Gen.V3.cross, V3.toVec, cross_apply]
+theorem V3_crossOp_crossProduct {α : Type} [CommRing α] (a b : V3 α) :
+    (Gen.V3.crossOp a b).toVec = crossProduct a.toVec b.toVec := by
+  simp [Gen.V3.crossOp, V3.toVec, cross_apply]
+theorem V3_crossAssign_crossProduct {α : Type} [CommRing α] (a b : V3 α) :
+    (Gen.V3.crossAssign a b).toVec = crossProduct a.toVec b.toVec := by
+  simp [Gen.V3.crossAssign, V3.toVec, cross_apply]
+/-- the 2-D cross product is the determinant of the matrix with rows `a`, `b` -/
+theorem V2_cross_det {α : Type} [CommRing α] (a b : V2 α) :
+    Gen.V2.cross a b = (Matrix.of ![a.toVec, b.toVec]).det := by
+  simp [Gen.V2.cross, V2.toVec, Matrix.det_fin_two]
+/-- right-handedness on the basis vectors: x × y = z, y × z = x, z × x = y; 2-D: x × y = +1 -/
+example : Gen.V3.cross (⟨1, 0, 0⟩ : V3 ℤ) ⟨0, 1, 0⟩ = ⟨0, 0, 1⟩ := by decide
+example : Gen.V3.cross (⟨0, 1, 0⟩ : V3 ℤ) ⟨0, 0, 1⟩ = ⟨1, 0, 0⟩ := by decide
+example : Gen.V3.cross (⟨0, 0, 1⟩ : V3 ℤ) ⟨1, 0, 0⟩ = ⟨0, 1, 0⟩ := by decide
+example : Gen.V2.cross (⟨1, 0⟩ : V2 ℤ) ⟨0, 1⟩ = 1 := by decide
 
 /-! ## quaternion (Hamilton) product -/
+
+/-- `Quat *` is the multiplication of Mathlib's `Quaternion α` (`Mathlib.Algebra.Quaternion`) under
+`toH (r, (x, y, z)) = r + x i + y j + z k`, for all operands -/
+theorem Quat_mul_hamilton {α : Type} [CommRing α] (a b : Quat α) :
+    (Gen.Quat.mul a b).toH = a.toH * b.toH := by
+  ext
+  · rw [Quaternion.re_mul]; simp only [Gen.Quat.mul, Quat.toH]; ring
+  · rw [Quaternion.imI_mul]; simp only [Gen.Quat.mul, Quat.toH]; ring
+  · rw [Quaternion.imJ_mul]; simp only [Gen.Quat.mul, Quat.toH]; ring
+  · rw [Quaternion.imK_mul]; simp only [Gen.Quat.mul, Quat.toH]; ring
+theorem Quat_mulAssign_hamilton {α : Type} [CommRing α] (a b : Quat α) :
+    (Gen.Quat.mulAssign a b).toH = a.toH * b.toH := by
+  ext
+  · rw [Quaternion.re_mul]; simp only [Gen.Quat.mulAssign, Quat.toH]; ring
+  · rw [Quaternion.imI_mul]; simp only [Gen.Quat.mulAssign, Quat.toH]; ring
+  · rw [Quaternion.imJ_mul]; simp only [Gen.Quat.mulAssign, Quat.toH]; ring
+  · rw [Quaternion.imK_mul]; simp only [Gen.Quat.mulAssign, Quat.toH]; ring
+/-- `q1 ^ q2` is the 4-D dot product of (r, x, y, z) -/
+theorem Quat_euclideanInnerProduct {α : Type} [CommRing α] (a b : Quat α) :
+    Gen.Quat.euclideanInnerProduct a b = a.toVec ⬝ᵥ b.toVec := by
+  simp [Gen.Quat.euclideanInnerProduct, Quat.toVec, dotProduct, Fin.sum_univ_four] <;> try ring
+/-- i·j = k, j·i = −k -/
+example : Gen.Quat.mul (⟨0, ⟨1, 0, 0⟩⟩ : Quat ℤ) ⟨0, ⟨0, 1, 0⟩⟩ = ⟨0, ⟨0, 0, 1⟩⟩ := by decide
+example : Gen.Quat.mul (⟨0, ⟨0, 1, 0⟩⟩ : Quat ℤ) ⟨0, ⟨1, 0, 0⟩⟩ = ⟨0, ⟨0, 0, -1⟩⟩ := by decide
 
 theorem Quat_mul {α : Type} [CommRing α] (a b : Quat α) :
     Gen.Quat.mul a b =
@@ -316,6 +361,92 @@ theorem M44_fastMinor_123_012 {α : Type} [CommRing α] (a : M44 α) :
 theorem M44_fastMinor_013_123 {α : Type} [CommRing α] (a : M44 α) :
     Gen.M44.fastMinor_013_123 a = (a.toMat.submatrix ![0, 1, 3] ![1, 2, 3]).det := by
   rw [Matrix.det_fin_three]; simp [Gen.M44.fastMinor_013_123, M44.toMat] <;> try ring
+
+/-! ### fastMinor: the single index-generic body (hand model `fastMinor2` / `fastMinor3` in `Lemmas/C05.lean`)
+is the determinant of the selected rows / columns for EVERY index tuple; the model is tied to the code at the
+extracted tuples below (ascending, descending, repeated, `r0 = 2` / `c0 = 2`, and all four tuples
+`Matrix44::determinant` calls) and on the real code at all 81 / 4096 tuples by `c05_residue`. -/
+
+theorem fastMinor2_eq_det {α : Type} [CommRing α] (A : Matrix (Fin 3) (Fin 3) α) (r0 r1 c0 c1 : Fin 3) :
+    fastMinor2 A r0 r1 c0 c1 = (A.submatrix ![r0, r1] ![c0, c1]).det := by
+  rw [Matrix.det_fin_two]
+  simp [fastMinor2, Matrix.submatrix_apply]
+theorem fastMinor3_eq_det {α : Type} [CommRing α] (A : Matrix (Fin 4) (Fin 4) α) (r0 r1 r2 c0 c1 c2 : Fin 4) :
+    fastMinor3 A r0 r1 r2 c0 c1 c2 = (A.submatrix ![r0, r1, r2] ![c0, c1, c2]).det := by
+  rw [Matrix.det_fin_three]
+  simp [fastMinor3, Matrix.submatrix_apply]
+  ring
+
+theorem M33_fastMinor_01_12_model {α : Type} [CommRing α] (a : M33 α) :
+    Gen.M33.fastMinor_01_12 a = fastMinor2 a.toMat 0 1 1 2 := by
+  simp [Gen.M33.fastMinor_01_12, fastMinor2, M33.toMat] <;> try ring
+theorem M33_fastMinor_12_02_model {α : Type} [CommRing α] (a : M33 α) :
+    Gen.M33.fastMinor_12_02 a = fastMinor2 a.toMat 1 2 0 2 := by
+  simp [Gen.M33.fastMinor_12_02, fastMinor2, M33.toMat] <;> try ring
+theorem M33_fastMinor_21_20_model {α : Type} [CommRing α] (a : M33 α) :
+    Gen.M33.fastMinor_21_20 a = fastMinor2 a.toMat 2 1 2 0 := by
+  simp [Gen.M33.fastMinor_21_20, fastMinor2, M33.toMat] <;> try ring
+theorem M33_fastMinor_00_11_model {α : Type} [CommRing α] (a : M33 α) :
+    Gen.M33.fastMinor_00_11 a = fastMinor2 a.toMat 0 0 1 1 := by
+  simp [Gen.M33.fastMinor_00_11, fastMinor2, M33.toMat] <;> try ring
+theorem M33_fastMinor_20_02_model {α : Type} [CommRing α] (a : M33 α) :
+    Gen.M33.fastMinor_20_02 a = fastMinor2 a.toMat 2 0 0 2 := by
+  simp [Gen.M33.fastMinor_20_02, fastMinor2, M33.toMat] <;> try ring
+theorem M44_fastMinor_123_012_model {α : Type} [CommRing α] (a : M44 α) :
+    Gen.M44.fastMinor_123_012 a = fastMinor3 a.toMat 1 2 3 0 1 2 := by
+  simp [Gen.M44.fastMinor_123_012, fastMinor3, M44.toMat] <;> try ring
+theorem M44_fastMinor_013_123_model {α : Type} [CommRing α] (a : M44 α) :
+    Gen.M44.fastMinor_013_123 a = fastMinor3 a.toMat 0 1 3 1 2 3 := by
+  simp [Gen.M44.fastMinor_013_123, fastMinor3, M44.toMat] <;> try ring
+theorem M44_fastMinor_321_210_model {α : Type} [CommRing α] (a : M44 α) :
+    Gen.M44.fastMinor_321_210 a = fastMinor3 a.toMat 3 2 1 2 1 0 := by
+  simp [Gen.M44.fastMinor_321_210, fastMinor3, M44.toMat] <;> try ring
+theorem M44_fastMinor_002_133_model {α : Type} [CommRing α] (a : M44 α) :
+    Gen.M44.fastMinor_002_133 a = fastMinor3 a.toMat 0 0 2 1 3 3 := by
+  simp [Gen.M44.fastMinor_002_133, fastMinor3, M44.toMat] <;> try ring
+theorem M44_fastMinor_023_012_model {α : Type} [CommRing α] (a : M44 α) :
+    Gen.M44.fastMinor_023_012 a = fastMinor3 a.toMat 0 2 3 0 1 2 := by
+  simp [Gen.M44.fastMinor_023_012, fastMinor3, M44.toMat] <;> try ring
+theorem M44_fastMinor_013_012_model {α : Type} [CommRing α] (a : M44 α) :
+    Gen.M44.fastMinor_013_012 a = fastMinor3 a.toMat 0 1 3 0 1 2 := by
+  simp [Gen.M44.fastMinor_013_012, fastMinor3, M44.toMat] <;> try ring
+theorem M44_fastMinor_012_012_model {α : Type} [CommRing α] (a : M44 α) :
+    Gen.M44.fastMinor_012_012 a = fastMinor3 a.toMat 0 1 2 0 1 2 := by
+  simp [Gen.M44.fastMinor_012_012, fastMinor3, M44.toMat] <;> try ring
+
+theorem M33_fastMinor_21_20 {α : Type} [CommRing α] (a : M33 α) :
+    Gen.M33.fastMinor_21_20 a = (a.toMat.submatrix ![2, 1] ![2, 0]).det := by
+  rw [M33_fastMinor_21_20_model, fastMinor2_eq_det]
+theorem M33_fastMinor_00_11 {α : Type} [CommRing α] (a : M33 α) :
+    Gen.M33.fastMinor_00_11 a = (a.toMat.submatrix ![0, 0] ![1, 1]).det := by
+  rw [M33_fastMinor_00_11_model, fastMinor2_eq_det]
+theorem M33_fastMinor_20_02 {α : Type} [CommRing α] (a : M33 α) :
+    Gen.M33.fastMinor_20_02 a = (a.toMat.submatrix ![2, 0] ![0, 2]).det := by
+  rw [M33_fastMinor_20_02_model, fastMinor2_eq_det]
+theorem M44_fastMinor_321_210 {α : Type} [CommRing α] (a : M44 α) :
+    Gen.M44.fastMinor_321_210 a = (a.toMat.submatrix ![3, 2, 1] ![2, 1, 0]).det := by
+  rw [M44_fastMinor_321_210_model, fastMinor3_eq_det]
+theorem M44_fastMinor_002_133 {α : Type} [CommRing α] (a : M44 α) :
+    Gen.M44.fastMinor_002_133 a = (a.toMat.submatrix ![0, 0, 2] ![1, 3, 3]).det := by
+  rw [M44_fastMinor_002_133_model, fastMinor3_eq_det]
+theorem M44_fastMinor_023_012 {α : Type} [CommRing α] (a : M44 α) :
+    Gen.M44.fastMinor_023_012 a = (a.toMat.submatrix ![0, 2, 3] ![0, 1, 2]).det := by
+  rw [M44_fastMinor_023_012_model, fastMinor3_eq_det]
+theorem M44_fastMinor_013_012 {α : Type} [CommRing α] (a : M44 α) :
+    Gen.M44.fastMinor_013_012 a = (a.toMat.submatrix ![0, 1, 3] ![0, 1, 2]).det := by
+  rw [M44_fastMinor_013_012_model, fastMinor3_eq_det]
+theorem M44_fastMinor_012_012 {α : Type} [CommRing α] (a : M44 α) :
+    Gen.M44.fastMinor_012_012 a = (a.toMat.submatrix ![0, 1, 2] ![0, 1, 2]).det := by
+  rw [M44_fastMinor_012_012_model, fastMinor3_eq_det]
+
+/-- `Matrix44::determinant` on the path where no last-column entry is zero is the alternating sum of
+`x[i][3] * fastMinor (rows without i, columns 0 1 2)` — the four calls are exactly the four extracted tuples -/
+theorem M44_determinant_via_fastMinor {α : Type} [CommRing α] [DecidableEq α] (a : M44 α) :
+    Gen.M44.determinant a = - (a.x03 * Gen.M44.fastMinor_123_012 a) + a.x13 * Gen.M44.fastMinor_023_012 a
+      - a.x23 * Gen.M44.fastMinor_013_012 a + a.x33 * Gen.M44.fastMinor_012_012 a := by
+  rw [M44_determinant, det_fin_four]
+  simp [M44.toMat, Gen.M44.fastMinor_123_012, Gen.M44.fastMinor_023_012, Gen.M44.fastMinor_013_012, Gen.M44.fastMinor_012_012]
+  ring
 
 theorem M33_cofactor_row0 {α : Type} [CommRing α] (a : M33 α) :
     Gen.M33.determinant a = (a.x00 * Gen.M33.minorOf_0_0 a) + (-a.x01 * Gen.M33.minorOf_0_1 a) + (a.x02 * Gen.M33.minorOf_0_2 a) := by
